@@ -1,4 +1,6 @@
 import Model.Pool
+import Model.Pipe
+import Proofs.C17Pipe
 /-!
 # C17 — pools stay within bounds; a session always closes (property theorems)
 
@@ -121,5 +123,252 @@ theorem C17_old_protocol_deadlock :
   refine ⟨_, rfl, by decide, by decide, by decide, ?_⟩
   intro a
   cases a <;> simp [ostep, orun, ODeb.init]
+
+end C17
+
+namespace C17
+/-! ### the connect pipeline at the granularity of its round trips (Model/Pipe.lean)
+
+Schedules = arbitrary lists of: an attempt's current step is answered / fails (dial, OPTIONS, STARTUP, each
+AUTH_RESPONSE round, USE), a filler stops, a pool connection breaks, Pick, any number of fill() calls passing
+their read-locked check before one of them takes the write lock, the host is removed, added again
+(a new pool object while attempts of the old one are in flight), the pool is closed, Session.Close. -/
+
+open Pipe C17Pipe in
+/-- **pool bound** over the finer pipeline: whatever the schedule, no pool object (registered or not) ever
+    holds more than NumConns connections — connections plus connects in flight plus connects still to be
+    started stay within the size -/
+theorem C17_pipe_pool_bound (c : Cfg) (hpos : 0 < c.size) (as : List Act) (h : Host)
+    (hr : (Host.init c).run as = some h) :
+    ∀ p ∈ h.pools, p.conns.length + p.att.length + p.rest ≤ c.size := by
+  have ⟨hi, hc⟩ := hinv_run as _ h (hinv_init c hpos) hr
+  intro p hp
+  have hc' : h.cfg.size = c.size := by rw [hc]; rfl
+  rcases mem_pools h p hp with hcur | hold
+  · have := (hi.cur p hcur).bound; omega
+  · have := (hi.old p hold).1.bound; omega
+
+open Pipe C17Pipe in
+/-- `C17_no_conn_after_close` restated over the finer pipeline: in every reachable state a closed pool holds no
+    connection, every pool that is no longer registered is closed, and the only sockets still attributable to a
+    closed pool are those of connects that have not returned yet (one each, none for a connect still dialling) -/
+theorem C17_pipe_no_conn_after_close (c : Cfg) (hpos : 0 < c.size) (as : List Act) (h : Host)
+    (hr : (Host.init c).run as = some h) :
+    (∀ p ∈ h.old, p.closed = true) ∧
+    (∀ p ∈ h.pools, p.closed = true → p.conns = [] ∧ p.opened = sockSum p.att) := by
+  have ⟨hi, _⟩ := hinv_run as _ h (hinv_init c hpos) hr
+  refine ⟨fun p hp => (hi.old p hp).2, ?_⟩
+  intro p hp hcl
+  have inv : PInv h.cfg.size p := by
+    rcases mem_pools h p hp with hcur | hold
+    · exact hi.cur p hcur
+    · exact (hi.old p hold).1
+  have h0 := inv.closedEmpty hcl
+  exact ⟨h0, by have := inv.ghost; simp [h0] at this; exact this⟩
+
+open Pipe C17Pipe in
+/-- a connection that completes (its last step — the USE reply when a keyspace is configured — is answered) after
+    its pool was closed is closed and never appended: in every reachable state, for every closed pool and every
+    connect of it waiting for its last answer, answering leaves the pool empty and takes one socket away -/
+theorem C17_pipe_late_completion_closed (c : Cfg) (hpos : 0 < c.size) (as : List Act) (h : Host)
+    (hr : (Host.init c).run as = some h) (p : Pool) (hp : p ∈ h.pools) (hcl : p.closed = true)
+    (k : Nat) (a : Att) (l : List Att) (ht : takeAtt p.att k = some (a, l)) (hlast : next h.cfg a.stage = none)
+    (p' : Pool) (m : Nat) (hok : Pool.ok h.cfg p k h.nextId = some (p', m)) :
+    p'.conns = [] ∧ p'.closed = true ∧ p'.opened + 1 = p.opened := by
+  have ⟨hi, _⟩ := hinv_run as _ h (hinv_init c hpos) hr
+  have inv : PInv h.cfg.size p := by
+    rcases mem_pools h p hp with hcur | hold
+    · exact hi.cur p hcur
+    · exact (hi.old p hold).1
+  have h0 := inv.closedEmpty hcl
+  have hg := inv.ghost
+  have ⟨_, ts⟩ := takeAtt_spec _ _ _ _ ht
+  have hsock : a.sock = 1 := by unfold Att.sock; simp [next_none_ne_dial h.cfg _ hlast]
+  unfold Pool.ok at hok
+  simp only [ht, hlast, hcl, if_true] at hok
+  split at hok <;>
+    (injection hok with hok; injection hok with hok _; subst hok
+     refine ⟨h0, rfl, ?_⟩
+     simp [h0] at hg ⊢; omega)
+
+open Pipe C17Pipe in
+/-- after Session.Close, once every connect in flight has returned, no socket is open and no pool holds a
+    connection — for every schedule before, around and after the Close -/
+theorem C17_pipe_session_close_leaves_nothing (c : Cfg) (hpos : 0 < c.size) (as : List Act) (h : Host)
+    (hr : (Host.init c).run as = some h) (hsc : h.sessClosed = true) (hq : ∀ p ∈ h.pools, p.att = []) :
+    h.opened = 0 ∧ h.closedConns = 0 ∧ h.cur = none := by
+  have ⟨hi, _⟩ := hinv_run as _ h (hinv_init c hpos) hr
+  have hcur := hi.sess hsc
+  have hall : ∀ p ∈ h.pools, p.closed = true ∧ p.conns = [] ∧ p.opened = 0 := by
+    intro p hp
+    rcases mem_pools h p hp with hc | hold
+    · rw [hcur] at hc; simp at hc
+    · have ⟨inv, hcl⟩ := hi.old p hold
+      have h0 := inv.closedEmpty hcl
+      refine ⟨hcl, h0, ?_⟩
+      have := inv.ghost; rw [hq p hp, h0] at this; simpa [sockSum] using this
+  refine ⟨?_, ?_, hcur⟩
+  · unfold Host.opened
+    apply sum_zero_of_all_zero
+    intro x hx
+    obtain ⟨p, hp, rfl⟩ := List.mem_map.mp hx
+    exact (hall p hp).2.2
+  · unfold Host.closedConns
+    apply sum_zero_of_all_zero
+    intro x hx
+    obtain ⟨p, hp, rfl⟩ := List.mem_map.mp hx
+    simp [(hall p hp).2.1]
+
+/-- non-vacuity, and the schedule of the seeded change: size 2, keyspace configured; the second connection is
+    dialled, gets SUPPORTED and READY and waits for the USE reply; the host is removed; the reply arrives -/
+example : ∃ h, (Pipe.Host.init ⟨2, true, 0⟩).run [.ok 2, .ok 2, .ok 2, .down, .ok 2, .stop] = some h ∧
+    h.opened = 0 ∧ h.closedConns = 0 := by
+  refine ⟨_, rfl, ?_, ?_⟩ <;> decide
+
+/-- What the check is there to catch (the family "the closed-check is made before the last round trip and the
+    append does not look again"): on the same schedule that variant ends with a closed pool holding a connection
+    that nothing will ever close. -/
+theorem C17_pipe_early_check_leaks :
+    ∃ h, (Pipe.Host.init ⟨2, true, 0⟩).runEarly [.ok 2, .ok 2, .ok 2, .down, .ok 2, .stop, .sclose] = some h ∧
+      h.sessClosed = true ∧ (∀ p ∈ h.pools, p.att = []) ∧ h.opened = 1 ∧ h.closedConns = 1 := by
+  refine ⟨_, rfl, ?_, ?_, ?_, ?_⟩ <;> decide
+
+/-- several fill() calls at once on a short idle pool (the second connect was refused, the filler stopped): both
+    pass the read-locked check; under the write lock the second one finds `filling` set and returns -/
+example : ∃ h, (Pipe.Host.init ⟨2, false, 0⟩).run
+    [.fail 2, .stop, .fillCheck, .fillCheck, .fillGo, .fillGo, .ok 3, .ok 3, .ok 3, .stop] = some h ∧
+    h.cur.map (·.conns) = some [1, 3] ∧ h.opened = 2 := by
+  refine ⟨_, rfl, ?_, ?_⟩ <;> decide
+
+/-- What the check is there to catch (the family "fill's second check, under the write lock, forgets `filling`"):
+    the same schedule gives two fillers and a pool above its size. -/
+theorem C17_pipe_fill_without_recheck_overfills :
+    ∃ h, (Pipe.Host.init ⟨2, false, 0⟩).runNoRecheck
+      [.fail 2, .stop, .fillCheck, .fillCheck, .fillGo, .fillGo, .ok 3, .ok 3, .ok 3, .ok 4, .ok 4, .ok 4] = some h ∧
+      h.cur.map (·.conns) = some [1, 3, 4] ∧ h.cfg.size = 2 := by
+  refine ⟨_, rfl, ?_, ?_⟩ <;> decide
+
+/-! ### startupCoordinator.setupConn: the handshake-result protocol (Model/Pipe.lean, namespace Hs) -/
+
+namespace HsProofs
+open Hs
+
+structure Inv (s : St) : Prop where
+  ret : s.c = .ret → s.cancelled = true
+  left : s.c = .left → s.cancelled = true
+  ticker : s.w = .done → s.tickerClosed = true
+  noBuf : s.buf = 0
+
+theorem inv_init : Inv St.init := by constructor <;> simp [St.init]
+
+theorem inv_step (s s' : St) (a : Act) (h : Inv s) (hs : step s a = some s') : Inv s' := by
+  obtain ⟨h1, h2, h3, h4⟩ := h
+  cases a <;> simp only [step] at hs <;> (try split at hs) <;>
+    first
+    | (simp at hs; done)
+    | (injection hs with hs; subst hs; constructor <;> simp_all)
+
+theorem inv_run : ∀ (as : List Act) (s s' : St), Inv s → run s as = some s' → Inv s'
+  | [], s, s', h, hr => by simp [run] at hr; subst hr; exact h
+  | a :: as, s, s', h, hr => by
+    simp only [run] at hr
+    split at hr
+    · rename_i s1 hs1; exact inv_run as s1 s' (inv_step s s1 a h hs1) hr
+    · simp at hr
+
+end HsProofs
+
+open Hs HsProofs in
+/-- **no reporter blocks forever on its send** (the code that exists: unbuffered channel, each send in a select
+    with ctx.Done()): in every state reachable under any schedule — deadline or parent cancellation at any point,
+    either reporter first, the consumer leaving through ctx.Done() or not — a reporter standing at its
+    `startupErr <- err` completes it within two steps of the protocol's own participants (the consumer's deferred
+    cancel(), then the ctx.Done() branch; or the rendezvous), no outside event needed -/
+theorem C17_hs_send_never_blocks (as : List Act) (s : St) (hr : run St.init as = some s) :
+    (s.r = .send → ∃ bs s', bs.length ≤ 2 ∧ (∀ b ∈ bs, b = .rSend ∨ b = .rEsc ∨ b = .cRet) ∧ run s bs = some s' ∧ s'.r = .done) ∧
+    (s.w = .send → ∃ bs s', bs.length ≤ 2 ∧ (∀ b ∈ bs, b = .wSend ∨ b = .wEsc ∨ b = .cRet) ∧ run s bs = some s' ∧ s'.w = .done) := by
+  have inv := HsProofs.inv_run as _ s HsProofs.inv_init hr
+  constructor
+  · intro hsend
+    cases hc : s.c with
+    | wait => exact ⟨[.rSend], _, by simp, by simp, by (simp [run, step, hsend, hc]; rfl), by rfl⟩
+    | got => exact ⟨[.cRet, .rEsc], _, by simp, by simp, by (simp [run, step, hsend, hc]; rfl), by rfl⟩
+    | left => exact ⟨[.rEsc], _, by simp, by simp, by (simp [run, step, hsend, inv.left hc]; rfl), by rfl⟩
+    | ret => exact ⟨[.rEsc], _, by simp, by simp, by (simp [run, step, hsend, inv.ret hc]; rfl), by rfl⟩
+  · intro hsend
+    cases hc : s.c with
+    | wait => exact ⟨[.wSend], _, by simp, by simp, by (simp [run, step, hsend, hc]; rfl), by rfl⟩
+    | got => exact ⟨[.cRet, .wEsc], _, by simp, by simp, by (simp [run, step, hsend, hc]; rfl), by rfl⟩
+    | left => exact ⟨[.wEsc], _, by simp, by simp, by (simp [run, step, hsend, inv.left hc]; rfl), by rfl⟩
+    | ret => exact ⟨[.wEsc], _, by simp, by simp, by (simp [run, step, hsend, inv.ret hc]; rfl), by rfl⟩
+
+open Hs HsProofs in
+/-- **every reporter terminates**: once setupConn has returned (on any path), each reporter that has not returned
+    has an enabled step of its own that brings it strictly closer to returning (`run → send → done`; for a reporter
+    still working this is "recv / options returns", which the closed socket resp. the cancelled context force),
+    no step of anybody moves a reporter away from returning, and "setupConn has returned" is stable -/
+theorem C17_hs_reporters_terminate (as : List Act) (s : St) (hr : run St.init as = some s) (hc : s.c = .ret) :
+    (s.r ≠ .done → ∃ a s', (a = .rErr ∨ a = .rEsc) ∧ step s a = some s' ∧ s'.r.measure < s.r.measure) ∧
+    (s.w ≠ .done → ∃ a s', (a = .wRet ∨ a = .wEsc) ∧ step s a = some s' ∧ s'.w.measure < s.w.measure) ∧
+    (∀ a s', step s a = some s' → s'.c = .ret ∧ s'.r.measure ≤ s.r.measure ∧ s'.w.measure ≤ s.w.measure) := by
+  have inv := HsProofs.inv_run as _ s HsProofs.inv_init hr
+  have hcan := inv.ret hc
+  refine ⟨?_, ?_, ?_⟩
+  · intro hnd
+    cases hrr : s.r with
+    | done => exact absurd hrr hnd
+    | run => exact ⟨.rErr, { s with r := .send }, by simp, by simp [step, hrr], by simp [RPc.measure]⟩
+    | send => exact ⟨.rEsc, { s with r := .done }, by simp, by simp [step, hrr, hcan], by simp [RPc.measure]⟩
+  · intro hnd
+    cases hww : s.w with
+    | done => exact absurd hww hnd
+    | run => exact ⟨.wRet, { s with w := .send }, by simp, by simp [step, hww], by simp [RPc.measure]⟩
+    | send => exact ⟨.wEsc, { s with w := .done, tickerClosed := true }, by simp, by simp [step, hww, hcan], by simp [RPc.measure]⟩
+  · intro a s' hs
+    cases a <;> simp only [step] at hs <;> (try split at hs) <;>
+      first
+      | (simp at hs; done)
+      | (injection hs with hs; subst hs; simp_all [RPc.measure])
+
+/-- the same monotonicity in every state (before setupConn returns as well): no step moves a reporter backwards -/
+theorem C17_hs_measure_mono (s s' : Hs.St) (a : Hs.Act) (hs : Hs.step s a = some s') :
+    s'.r.measure ≤ s.r.measure ∧ s'.w.measure ≤ s.w.measure := by
+  cases a <;> simp only [Hs.step] at hs <;> (try split at hs) <;>
+    first
+    | (simp at hs; done)
+    | (injection hs with hs; subst hs; simp_all [Hs.RPc.measure])
+
+/-- What the check is there to catch (the family "result channel buffered, plain sends"): the consumer leaves
+    through ctx.Done() without receiving; the writer's error fills the one slot; the reader's error send then
+    blocks — and stays blocked along EVERY continuation (the state is closed under all steps). -/
+theorem C17_hs_buffered_plain_send_blocks :
+    ∃ s, Hs.runBuf Hs.St.init [.ctxFire, .cLeave, .cRet, .wRet, .wSend, .rErr] = some s ∧
+      s.r = .send ∧ s.w = .done ∧ s.c = .ret ∧ s.buf = 1 ∧
+      ∀ (bs : List Hs.Act) (s' : Hs.St), Hs.runBuf s bs = some s' → s'.r = .send := by
+  refine ⟨_, rfl, by decide, by decide, by decide, by decide, ?_⟩
+  have key : ∀ (bs : List Hs.Act) (t t' : Hs.St), t.r = .send → t.w = .done → t.c = .ret → t.buf = 1 →
+      Hs.runBuf t bs = some t' → t'.r = .send := by
+    intro bs
+    induction bs with
+    | nil => intro t t' h1 _ _ _ hr; simp [Hs.runBuf] at hr; subst hr; exact h1
+    | cons b bs ih =>
+      intro t t' h1 h2 h3 h4 hr
+      simp only [Hs.runBuf] at hr
+      split at hr
+      · rename_i t1 ht1
+        have : t1.r = .send ∧ t1.w = .done ∧ t1.c = .ret ∧ t1.buf = 1 := by
+          cases b <;> simp only [Hs.stepBuf] at ht1 <;> (try split at ht1) <;>
+            first
+            | (simp at ht1; done)
+            | (injection ht1 with ht1; subst ht1; simp_all)
+        exact ih t1 t' this.1 this.2.1 this.2.2.1 this.2.2.2 hr
+      · simp at hr
+  intro bs s' hr
+  exact key bs _ s' (by decide) (by decide) (by decide) (by decide) hr
+
+/-- the code that exists on the same events: both reporters return -/
+example : ∃ s, Hs.run Hs.St.init [.ctxFire, .cLeave, .cRet, .wRet, .wEsc, .rErr, .rEsc] = some s ∧
+    s.r = .done ∧ s.w = .done := by
+  refine ⟨_, rfl, ?_, ?_⟩ <;> decide
 
 end C17
